@@ -1,5 +1,5 @@
 (* C13 driver: scenario = one operation, or one of the life-cycle scenarios of C13_Life.v (:repeat :pad :seq :split :fromtill
-   :masked :binary :col); see checks/C13.py for the token grammar *)
+   :masked :binary :col), or an aliasing history (:als, C13_Alias.v); see checks/C13.py for the token grammar *)
 let b c = bytes_tok (next c)
 let op_of c =
   match next c with
@@ -87,6 +87,20 @@ let cop_of c =
   | ":get" -> KGet (n_tok (next c))
   | ":snap" -> KSnap
   | t -> raise (Bad ("col op " ^ t))
+(* aliasing: statements whose argument points into the object's own buffer *)
+let aop_of c =
+  match next c with
+  | ":asgp" -> AAsgP (nt c)
+  | ":asgs" -> AAsgS
+  | ":ctor" -> ACtor (nt c)
+  | ":appp" -> AAppP (nt c)
+  | ":apps" -> AAppS
+  | ":repl" -> let k1 = nt c in ARepl (k1, nt c)
+  | ":cmpp" -> ACmpP (nt c)
+  | ":cmps" -> ACmpS
+  | ":sstr" -> let k1 = nt c in AStrStr (k1, nt c)
+  | ":scmp" -> let k1 = nt c in AStrCmp (k1, nt c)
+  | t -> raise (Bad ("alias op " ^ t))
 let scn_of c =
   match peek c with
   | Some ":col" -> ignore (next c); SColl (counted c cop_of)
@@ -98,11 +112,15 @@ let scn_of c =
   | Some ":masked" -> ignore (next c); let v = n_tok (next c) in let m = n_tok (next c) in SMasked (v, m, n_tok (next c))
   | Some ":binary" -> ignore (next c); SBinary (b c)
   | _ -> SOp (op_of c)
-let run_line ts = let c = { rest = ts } in let o = scn_of c in
-  if not (valid_scn o) then raise (Bad "scenario outside the property's domain (valid = false)") else
-  let r = run_scn o in String.concat " " (pval r.o_val @ [pbool r.o_ref; pbool r.o_paired])
-let spec_line ts os = let c = { rest = ts } in let o = scn_of c in
+let xscn_of c =
+  match peek c with
+  | Some ":als" -> ignore (next c); let a = b c in XAlias (a, counted c aop_of)
+  | _ -> XOld (scn_of c)
+let run_line ts = let c = { rest = ts } in let o = xscn_of c in
+  if not (valid_x o) then raise (Bad "scenario outside the property's domain (valid = false)") else
+  let r = run_x o in String.concat " " (pval r.o_val @ [pbool r.o_ref; pbool r.o_paired])
+let spec_line ts os = let c = { rest = ts } in let o = xscn_of c in
   let n = List.length os in
   if n < 3 then false else
   let v = List.filteri (fun i _ -> i < n - 2) os in
-  spec_scn o { o_val = val_of v; o_ref = bool_tok (List.nth os (n - 2)); o_paired = bool_tok (List.nth os (n - 1)) }
+  spec_x o { o_val = val_of v; o_ref = bool_tok (List.nth os (n - 2)); o_paired = bool_tok (List.nth os (n - 1)) }
